@@ -781,7 +781,8 @@ fn c09_and_or() {
 fn c09_fieldwise_max() {
     let (a, b) = (any_sat(), any_sat());
     kani::cover!(true);
-    let m = a.fieldwise_max(b);
+    // through the Option wrapper the rows use (a private two-argument helper may or may not exist)
+    let m = SatData::fieldwise_max_opt(Some(a), Some(b)).unwrap();
     // least upper bound, field by field
     bound!("fieldwise_max", "ub", Some(m), Some(w(a)));
     bound!("fieldwise_max", "ub", Some(m), Some(w(b)));
